@@ -182,6 +182,10 @@ var fmtFileSeeds = []string{
 
 var fmtSeeds = []string{
 	"{! leaf( s ) }",
+	"@leaf(s +\n\n\n\t\t`r1\nr2\n\tr3`)",
+	"{! leaf(s +\n\n\n\t\t`r1\nr2`) }",
+	"<p class={ \"btn\", s,\t// note\n\t}>x</p>",
+	"<p class={ \"link\", t,// note\n\t}>x</p>",
 	"<p\n\t\tdata-x={\n\t\t\t`a\nb`,\n\t\t}\n\t>x</p>",
 	"<p\n\t\ttitle={\n\t\t\ts, /* c1\n c2 */\n\t\t}\n\t>x</p>",
 	"<h2>{ // only\n\t}</h2>",
